@@ -61,8 +61,11 @@ def cases(tier, seed):
             r = rng.random()
             if r < 0.55:
                 reqs.append(["good", rng.randrange(10), rng.randrange(len(PARAMS))])
-            elif r < 0.65:
+            elif r < 0.61:
                 reqs.append(["unknown", rng.choice(["/nope", "/g9", "/", "/g0/extra", "/P0"]), rng.randrange(len(PARAMS))])
+            elif r < 0.65:
+                # a near miss of a registered route: still not registered
+                reqs.append(["unknown-near", rng.randrange(10), rng.randrange(len(PARAMS)), rng.choice(["trailing-slash", "leading-double-slash", "extra-char", "upper-case", "dot-segment"])])
             elif r < 0.75:
                 reqs.append(["wrong-method", rng.randrange(10), rng.randrange(len(PARAMS))])
             elif r < 0.88:
@@ -214,6 +217,20 @@ def _run_web(ctx, case, res):
                     break
                 if st == 200:
                     bad("unknown-path|status:200", "request to unregistered %s answered 200 %r" % (rq[1], body[:60]))
+                    break
+            elif kind == "unknown-near":
+                method, path, tag = routes[rq[1] % len(routes)]
+                near = {"trailing-slash": path + "/", "leading-double-slash": "/" + path, "extra-char": path + "x", "upper-case": path.upper(), "dot-segment": "/x/.." + path}[rq[3]]
+                if any(p == near for _, p, _ in routes):
+                    continue
+                st, body = _http(method, base + near, params)          # urllib follows redirects for GET
+                hist.append("? %s %s -> %s" % (method, near, st))
+                cnt["near_miss_requests"] = cnt.get("near_miss_requests", 0) + 1
+                if len(log) != before:
+                    bad("unknown-path|near-miss:%s|handler-invoked" % rq[3], "%s request to unregistered %s (near miss of %s) invoked %r" % (method, near, path, log[before:]))
+                    break
+                if st == 200 or (isinstance(st, int) and 300 <= st < 400):
+                    bad("unknown-path|near-miss:%s|status:%s" % (rq[3], st), "%s request to unregistered %s (near miss of %s) answered %s %r" % (method, near, path, st, body[:60]))
                     break
             elif kind == "wrong-method":
                 method, path, tag = routes[rq[1] % len(routes)]
